@@ -7,7 +7,7 @@ import ast
 from ..cfg import build_cfg, calls_in, node_calls
 from ..core import Ctx, property_info, rule, share
 from ..model import AnalysisError, FuncInfo, anon_text, walk_no_nested
-from ..q import Dispatch, L, call_name_of, control_deps, entry_conditions, expand_at, flow_conditions, flows, forms, return_values, str_template, template_text, tests_like, A, MUTATORS, asrc, enum_members, is_self_attr, kwarg, root_name, stores, unparse
+from ..q import Dispatch, L, call_name_of, control_deps, entry_conditions, leaves_at, raw_forms, expand_at, flow_conditions, flows, forms, return_values, str_template, template_text, tests_like, A, MUTATORS, asrc, enum_members, is_self_attr, kwarg, root_name, stores, unparse
 
 DM = "xsdata.codegen.mappers.dtd"
 DP = "xsdata.codegen.parsers.dtd"
@@ -295,7 +295,7 @@ def send_wiring(ctx: Ctx) -> None:
     data_leaves = hdr_leaves = []
     if ok:
         n, c = posts[0]
-        ok = [unparse(x) for x in c.args] == ["self.config.location"]
+        ok = len(c.args) == 1 and "self.config.location" in raw_forms(fi, n, c.args[0])
         data_leaves = [leaf for leaf, _ in flows(fi, n, kwarg(c, "data"))] if kwarg(c, "data") is not None else []
         hdr_leaves = [leaf for leaf, _ in flows(fi, n, kwarg(c, "headers"))] if kwarg(c, "headers") is not None else []
     pay = bool(data_leaves) and all(isinstance(x, ast.Call) and unparse(x.func) == "self.prepare_payload" and [unparse(a) for a in x.args] == ["obj"] for x in data_leaves)
@@ -358,16 +358,17 @@ def payload_typing(ctx: Ctx) -> None:
     fi = ctx.repo.func(f"{CL}:Client.prepare_payload")
     g = build_cfg(fi.node)
     dec = [(n, c) for n in g.stmts() for c in node_calls(n) if call_name_of(c) == "decode"]
-    ok = len(dec) == 1 and len(dec[0][1].args) == 2 and unparse(dec[0][1].args[1]) == "self.config.input" and any(t == "isinstance(_,dict)" and pol for t, pol, _ in control_deps(fi, dec[0][0])) \
+    ok = len(dec) == 1 and len(dec[0][1].args) == 2 and "self.config.input" in raw_forms(fi, dec[0][0], dec[0][1].args[1]) and any(t == "isinstance(_,dict)" and pol for t, pol, _ in control_deps(fi, dec[0][0])) \
         and any(isinstance(c, ast.Call) and call_name_of(c) == "DictDecoder" and unparse(kwarg(c, "context") or ast.Constant(0)) == "self.serializer.context" for c in calls_in(fi.node))
     ctx.ob("dict requests are decoded into config.input with the serializer's context", ok, at=fi, construct="dict decode", msg="dict requests decoded differently")
     tt = tests_like(fi, "isinstance(_, self.config.input)")
     rs = [n for n in g.stmts() if isinstance(n.ast, ast.Raise) and "ClientValueError" in unparse(n.ast)]
+    dec = dec or []
     ctx.ob("a request that is not an instance of config.input raises ClientValueError", bool(tt) and len(rs) == 1 and g.only_if(rs[0].id, tt[0].id, False), at=fi, construct="input type check", msg="wrong request types are serialized")
     rend = [n for n in g.stmts() if any(unparse(c.func) == "self.serializer.render" for c in node_calls(n))]
     ctx.ob("the payload is self.serializer.render(obj), after the type check", len(rend) == 1 and bool(tt) and g.only_if(rend[0].id, tt[0].id, True), at=fi, construct="render", msg="rendered before/without the check")
     enc = [(r, leaf) for r in g.returns() for leaf, _ in flows(fi, r, r.ast.value) if isinstance(leaf, ast.Call) and call_name_of(leaf) == "encode"]
-    ok = bool(enc) and all([unparse(a) for a in leaf.args] == ["self.config.encoding"] and any(t == "self.config.encoding" and pol for t, pol, _ in control_deps(fi, r)) for r, leaf in enc)
+    ok = bool(enc) and all(len(leaf.args) == 1 and "self.config.encoding" in raw_forms(fi, r, leaf.args[0]) and any(t == "self.config.encoding" and pol for t, pol, _ in control_deps(fi, r)) for r, leaf in enc)
     ctx.ob("the payload is encoded only when config.encoding is set (with that encoding)", ok, at=fi, construct="payload encoding", msg="encoding handling changed")
 
 
@@ -406,7 +407,7 @@ def types_registered_before_emission(ctx: Ctx) -> None:
     """In repr_object, types.add(type(obj)) dominates every emission and every child is emitted through repr_object."""
     fi = ctx.repo.func(f"{PC}:PycodeSerializer.repr_object")
     g = build_cfg(fi.node)
-    reg = [n for n in g.stmts() if any(A(unparse(c)) == A("types.add(type(obj))") for c in node_calls(n))]
+    reg = [n for n in g.stmts() if any(unparse(c.func) == "types.add" and len(c.args) == 1 and "type(obj)" in raw_forms(fi, n, c.args[0]) for c in node_calls(n))]
     ys = [n for n in g.stmts() if n.ast is not None and any(isinstance(x, (ast.Yield, ast.YieldFrom)) for x in [n.ast, *walk_no_nested(n.ast)]) and n.kind == "stmt"]
     ctx.ob("types.add(type(obj)) dominates every yield of repr_object", len(reg) == 1 and bool(ys) and all(g.must_pass(g.entry, y.id, [reg[0].id]) for y in ys), at=fi, construct="register first",
            msg="a value can be emitted without its type being imported")
@@ -470,9 +471,9 @@ def emitted_head_is_imported_name(ctx: Ctx) -> None:
     ro = cls_.methods["repr_object"]
     g = build_cfg(ro.node)
     en = tests_like(ro, "isinstance(_, Enum)")
-    ey = [n for n in g.stmts() if bool(en) and n.kind == "stmt" and any(g.only_if(n.id, t.id, True) for t in en)]
+    ey = [n for n in g.stmts() if bool(en) and n.kind == "stmt" and any(g.only_if(n.id, t.id, True) for t in en) and any(isinstance(x, ast.Yield) for x in [n.ast, *walk_no_nested(n.ast)])]
     et = [t for _, t in _qualname_heads(ro, ey)]
-    ok = len(et) == 1 and [k for k, _ in et[0]] == ["hole", "lit", "hole"] and unparse(et[0][0][1]) in QUALNAME_OF_OBJ and et[0][1][1] == "." and unparse(et[0][2][1]) == "obj.name"
+    ok = len(et) == 1 and [k for k, _ in et[0]] == ["hole", "lit", "hole"] and bool(raw_forms(ro, ey[0], et[0][0][1]) & QUALNAME_OF_OBJ) and et[0][1][1] == "." and "obj.name" in raw_forms(ro, ey[0], et[0][2][1])
     ctx.ob("enum members are emitted as <class __qualname__>.<member name>", ok, at=ro, node=ey[0].ast if ey else None, construct="enum head",
            msg="str(member) uses the bare class name: a member of a nested enum is emitted as 'Kind.A' while only the outer class is imported (NameError)")
     bi = cls_.methods["build_imports"]
@@ -523,14 +524,36 @@ def container_delimiters(ctx: Ctx) -> None:
         return None
 
     d = Dispatch(fi.node, classify=kind_of, extra=lambda t: True if unparse(t) == "obj" else None)  # non-empty container
+    # the expressions yielded before / after the items: the hole of a template "{}\n" (opening) and of a template ending in "{}" (closing)
+    open_e: list[tuple[object, ast.expr]] = []
+    close_e: list[tuple[object, ast.expr]] = []
+    for n in g.stmts():
+        if n.kind != "stmt" or n.ast is None:
+            continue
+        for y in [n.ast, *walk_no_nested(n.ast)]:
+            if isinstance(y, ast.Yield) and y.value is not None:
+                t = str_template(y.value)
+                if t is None:
+                    continue
+                holes = [v for k, v in t if k == "hole"]
+                txt = template_text(t)
+                if txt == "{}\n" and holes:
+                    open_e.append((n, holes[0]))
+                elif txt.endswith("{}") and not txt.endswith("\n") and holes:
+                    close_e.append((n, holes[-1]))
     pairs: dict[str | None, set[tuple]] = {}
     for key in [*sorted(d.keys), None]:
-        found: set[tuple] = set()
-        for n in d.under(key):
-            st = n.ast
-            if n.kind == "stmt" and isinstance(st, ast.Assign) and isinstance(st.value, ast.Tuple) and len(st.value.elts) == 2 and all(isinstance(e, ast.Constant) and isinstance(e.value, str) for e in st.value.elts):
-                found.add(tuple(e.value for e in st.value.elts))
-        pairs[key] = found
+        ids = {n.id for n in d.under(key)}
+
+        def consts(sites):
+            out = set()
+            for n, e in sites:
+                for leaf, chain in flows(fi, n, e):
+                    if isinstance(leaf, ast.Constant) and isinstance(leaf.value, str) and all(c.id in ids for c in chain):
+                        out.add(leaf.value)
+            return out
+
+        pairs[key] = {(o, c) for o in consts(open_e) for c in consts(close_e)}
     # keys are tested in the order the code tests them: under(`set`) also sees the frozenset branch only if frozenset is not tested first - use `specific`
     def only(key):
         mine = pairs.get(key, set())
@@ -549,11 +572,19 @@ def container_delimiters(ctx: Ctx) -> None:
     rm = ctx.repo.func(f"{PC}:PycodeSerializer.repr_mapping")
     loops = [n for n in walk_no_nested(rm.node) if isinstance(n, ast.For) and ".items()" in unparse(n.iter)]
     ok = False
-    if loops and isinstance(loops[0].target, ast.Tuple) and len(loops[0].target.elts) == 2:
-        k, v = (unparse(e) for e in loops[0].target.elts)
-        emitted = [unparse(y.value.args[0]) for st in loops[0].body for y in [st, *walk_no_nested(st)] if isinstance(y, ast.YieldFrom) and isinstance(y.value, ast.Call) and call_name_of(y.value) == "repr_object" and y.value.args]
-        seps = [y.value.value for st in loops[0].body for y in [st, *walk_no_nested(st)] if isinstance(y, ast.Yield) and isinstance(y.value, ast.Constant)]
-        ok = emitted == [k, v] and any(str(x).strip() == ":" for x in seps)
+    if loops:
+        tgt = loops[0].target
+        if isinstance(tgt, ast.Tuple) and len(tgt.elts) == 2:
+            kt, vt = {unparse(tgt.elts[0])}, {unparse(tgt.elts[1])}
+        else:
+            kt, vt = {f"{unparse(tgt)}[0]"}, {f"{unparse(tgt)}[1]"}
+        from ..model import ordered_stmts
+
+        body_nodes = [x for st in ordered_stmts(loops[0]) for x in ([st.value] if isinstance(st, ast.Expr) else [])]
+        emitted = [{unparse(l) for l in leaves_at(rm, y, y.value.args[0])} | {unparse(y.value.args[0])} for y in body_nodes
+                   if isinstance(y, ast.YieldFrom) and isinstance(y.value, ast.Call) and call_name_of(y.value) == "repr_object" and y.value.args]
+        seps = [y.value.value for y in body_nodes if isinstance(y, ast.Yield) and isinstance(y.value, ast.Constant)]
+        ok = len(emitted) == 2 and bool(emitted[0] & kt) and bool(emitted[1] & vt) and any(str(x).strip() == ":" for x in seps)
     ctx.ob("mappings emit key: value pairs through repr_object", ok, at=rm, construct="mapping pairs", msg="mapping emission changed")
 
 
